@@ -8,3 +8,4 @@ open IQE.Props.C25
 #print axioms C25_topk_fusion_any_selection
 #print axioms C25_ties_any_order
 #print axioms C25_ties
+#print axioms C25_spilled
